@@ -29,6 +29,10 @@ type Stream struct {
 	// FailAt: the FailAt-th Read (1-based) returns ErrInjected with a short count; 0: never.
 	FailAt int64
 	Failed bool
+	// MaxChunk > 0: a Read returns at most MaxChunk bytes (a legal short read without error,
+	// as a pipe- or hardware-backed source may do).
+	MaxChunk int
+	Short    int64
 }
 
 var ErrInjected = errors.New("simrand: injected random source failure")
@@ -51,6 +55,10 @@ func (s *Stream) Read(p []byte) (int, error) {
 		s.Failed = true
 		unlock(&s.lk)
 		return 0, ErrInjected
+	}
+	if s.MaxChunk > 0 && len(p) > s.MaxChunk {
+		p = p[:s.MaxChunk]
+		s.Short++
 	}
 	var z uint64
 	for i := 0; i < len(p); i++ {
